@@ -473,7 +473,8 @@ pub fn run(args: &Args) -> i32 {
                 let case = format!("siqs/{}/{}/k{}", bits, r8, k);
                 let nfacs = siqs::vhook::nfactors(&n) as usize;
                 let mm = siqs::vhook::interval_size(&n, false) as usize;
-                let fbsize = siqs::vhook::fb_size(&n, false);
+                // (the size of the base does not matter for the polynomials beyond holding the factors of A)
+                let fbsize = siqs::vhook::fb_size(&n, false).min(20000);
                 let want = siqs::vhook::a_value_count(&n).min(40);
                 // large families are expensive to validate: fewer of them
                 let max_fams = if nfacs >= 8 { 1 } else if nfacs >= 6 { 2 } else { 5 };
@@ -521,8 +522,9 @@ pub fn run(args: &Args) -> i32 {
                     Err(_) => vec![],
                 };
                 ds.truncate(if thorough { 12 } else { 5 });
-                // small D values (possibly inside the factor base): needs D^2 < n
-                if bits >= 40 {
+                // small D values (possibly inside the factor base): needs D^4 < n (C < 0) and C = (B^2 - n) / 4 D^2
+                // within 256 bits
+                if bits >= 40 && bits <= 220 {
                     if let Ok(mut v) = guard(|| mpqs::sieve_for_polys(&n, 3, 400)) {
                         v.retain(|(d, _)| Uint::from(*d as u64) * Uint::from(*d as u64) < n);
                         v.truncate(3);
